@@ -315,3 +315,122 @@ def canary_add_drops_constant(S):
     sigma = sigma_for(S, ["x", "y"])
     out = S.call(lambda: a + b)
     S.ensure("canary.sum_ignores_constants", seq(val(out.value, sigma), val(a, sigma) + val(b, sigma) - a.c) if out.ok else False)
+
+
+# ---- bounded leg: larger expression trees (the symbolic runs hold operands over <= 2 / 3 variables and ONE operator application) --------
+
+@contract(P, kind="enum", functions=[M + "Expr.__add__", M + "Expr.__sub__", M + "Expr.__mul__", M + "Expr.__rmul__", M + "Expr.__radd__", M + "Expr.__rsub__",
+                                     M + "Expr.__neg__", M + "Ineq.__init__", M + "Literal.__add__", M + "Term.__add__"],
+          scope="bounded: random expression trees of depth <= 5 over 5 variables (both polarities, integer constants and multipliers incl. 0 and "
+                "negatives, reflected operators), all 32 assignments, all five comparison operators", params=[dict(chunk=i) for i in range(8)])
+def larger_expression_trees(chunk, replay=None):
+    import os
+    import random
+    tier = os.environ.get("VERIF_TIER", "quick")
+    rng = random.Random(1600 + chunk + 100 * int(os.environ.get("VERIF_SEED", "0") or 0))
+    n_cases = 150 if tier != "thorough" else 4000
+    VARS = ["a", "b", "c", "d", "e"]
+    failures, evals, samples, sizes = [], 0, [], 0
+
+    def build(tree):
+        """tree -> (object built with the library's operators, function sigma -> int computed directly)"""
+        kind = tree[0]
+        if kind == "lit":
+            _, v, s = tree
+            return pb.Literal(v, s), (lambda sg, v=v, s=s: int(sg[v] == s))
+        if kind == "int":
+            return tree[1], (lambda sg, k=tree[1]: k)
+        if kind == "term":
+            _, v, s, k = tree
+            return pb.Term(pb.Literal(v, s), k), (lambda sg, v=v, s=s, k=k: k * int(sg[v] == s))
+        if kind == "neg":       # the library's unary minus: the complement of a literal, the arithmetic negation of a term or an integer
+            o, f = build(tree[1])
+            if isinstance(o, pb.Literal):
+                return -o, (lambda sg, f=f: 1 - f(sg))
+            return -o, (lambda sg, f=f: -f(sg))
+        if kind == "mul":
+            o, f = build(tree[2])
+            k = tree[1]
+            return (k * o if tree[3] else o * k), (lambda sg, f=f, k=k: k * f(sg))
+        a, fa = build(tree[1])
+        b, fb = build(tree[2])
+        if kind == "add":
+            return a + b, (lambda sg: fa(sg) + fb(sg))
+        return a - b, (lambda sg: fa(sg) - fb(sg))
+
+    def gen(depth):
+        r = rng.random()
+        if depth == 0 or r < 0.25:
+            k = rng.random()
+            if k < 0.55:
+                return ("lit", rng.choice(VARS), rng.random() < 0.6)
+            if k < 0.8:
+                return ("term", rng.choice(VARS), rng.random() < 0.5, rng.choice([1, 2, 3, 5, 7]))
+            return ("int", rng.choice([-3, -1, 0, 1, 2, 4]))
+        if r < 0.35:
+            return ("neg", gen(0))          # unary minus is defined for literals, terms and integers only
+        if r < 0.5:
+            return ("mul", rng.choice([-3, -2, -1, 0, 1, 2, 3, 5]), gen(depth - 1), rng.random() < 0.5)
+        return (rng.choice(["add", "add", "sub"]), gen(depth - 1), gen(depth - 1))
+
+    def expr_val(e, sg):
+        if isinstance(e, int):
+            return e
+        if isinstance(e, pb.Literal):
+            return int(sg[e.v] == e.s)
+        if isinstance(e, pb.Term):
+            return e.c * int(sg[e.L.v] == e.L.s)
+        return e.c + sum(t.c * int(sg[t.L.v] == t.L.s) for t in e.t.values())
+
+    def nf(e):
+        return not isinstance(e, pb.Expr) or all(isinstance(t, pb.Term) and t.L.v == k and t.c > 0 for k, t in e.t.items())
+
+    sigmas = [dict(zip(VARS, bits)) for bits in itertools.product([False, True], repeat=len(VARS))]
+    for it in range(n_cases):
+        t1 = replay["t1"] if replay else gen(rng.randint(2, 5))
+        t2 = replay["t2"] if replay else gen(rng.randint(1, 4))
+        op = replay["op"] if replay else rng.choice([">=", "<=", ">", "<", "=="])
+        evals += 1
+        info = dict(t1=t1, t2=t2, op=op)
+        try:
+            e1, f1 = build(t1)
+            e2, f2 = build(t2)
+        except TypeError:
+            continue            # e.g. int - int handled by Python itself or an operator the library does not define for this pair: not an Expr
+        except Exception as e:  # noqa
+            failures.append(dict(clause="big.building_an_expression_never_fails", observed=f"{type(e).__name__}: {e}", **info))
+            continue
+        bad = None
+        for e, f, nm in ((e1, f1, "first"), (e2, f2, "second")):
+            if not nf(e):
+                bad = bad or f"{nm} tree: normal form carries a zero / negative coefficient or a misfiled variable"
+            for sg in sigmas:
+                if expr_val(e, sg) != f(sg):
+                    bad = bad or f"{nm} tree evaluates to {expr_val(e, sg)} instead of {f(sg)} under {sg}"
+                    break
+        if not bad and (isinstance(e1, (pb.Expr, pb.Term, pb.Literal)) or isinstance(e2, (pb.Expr, pb.Term, pb.Literal))):
+            try:
+                q = {">=": lambda x, y: x >= y, "<=": lambda x, y: x <= y, ">": lambda x, y: x > y, "<": lambda x, y: x < y, "==": lambda x, y: x == y}[op](e1, e2)
+            except Exception as e:  # noqa
+                q, bad = None, f"comparison {op} raised {type(e).__name__}: {e}"
+            if isinstance(q, pb.Ineq):
+                if not nf(q.lhs):
+                    bad = bad or "inequality: normal form of the left-hand side broken"
+                for sg in sigmas:
+                    holds = _ineq_holds(q, sg)
+                    direct = _direct(f1(sg), f2(sg), op if op != "==" else "==")
+                    if bool(holds) != bool(direct):
+                        bad = bad or f"built inequality ({op}) holds = {bool(holds)} but the direct comparison of {f1(sg)} and {f2(sg)} is {bool(direct)} under {sg}"
+                        break
+        sizes += 1
+        if bad:
+            failures.append(dict(clause="big.built_expression_means_what_integer_arithmetic_means", observed=bad, **info))
+        if not samples:
+            samples.append(info)
+        if len(failures) >= 4 or replay:
+            break
+    return dict(evaluations=evals, distinct_nontrivial=sizes, exhaustive=False, failures=failures[:4],
+                rule="two random expression trees (depth <= 5: literals of both polarities, terms, integers, unary minus, integer multiples on either side "
+                     "incl. 0 and negatives, + and -) over 5 variables built with the library's operators; value under all 32 assignments against the value "
+                     "computed directly from the tree; normal form; then one of the five comparisons between them against the direct comparison",
+                samples=samples, bound=f"{n_cases} pairs of trees per chunk")
